@@ -316,8 +316,27 @@ def protocol_bounded(p):
         finally:
             os.chdir(cwd)
             sys.path.remove(str(pkg))
+        # two simulations in ONE process whose plug-ins have the same file name in different directories:
+        # each must run the file ITS configuration names (no process-wide cache keyed on the file name)
+        cases += 1
+        try:
+            tags = {}
+            for tag, kill in (("expA", 0), ("expB", 2)):
+                sub = d / tag
+                sub.mkdir()
+                (sub / "my_ibm.py").write_text(IBM_KILL.replace("class IBM:", f"WHO = '{tag}'\nclass IBM:"))
+                cfgx = base_config(d, release_rows=rows, out=f"{tag}.nc", period=1200, ibm=dict(module=str(sub / "my_ibm.py"), kill_pid=kill, kill_step=1))
+                mx = run(cfgx)
+                who = type(mx.ibm).update.__globals__.get("WHO")
+                if who != tag:
+                    failures.append(dict(what=f"simulation {tag}: the IBM that ran was loaded from {who}/my_ibm.py, the configuration names {sub / 'my_ibm.py'}"))
+                last = read_records([d / f"{tag}.nc"])[-1][1]
+                if kill in last:
+                    failures.append(dict(what=f"simulation {tag}: particle {kill} should have been killed by this set-up's own IBM"))
+        except BaseException as e:  # noqa: BLE001
+            failures.append(dict(what=f"same-name plug-ins in two directories: raised {type(e).__name__}: {str(e)[:100]}"))
         samples.append(dict(ibm_log_head=lines[:3], records=len(recs)))
-    return dict(cases=cases, failures=failures[:10], samples=samples, bound="one 12-step scenario with a logging IBM given by path; one path-vs-name precedence case")
+    return dict(cases=cases, failures=failures[:10], samples=samples, bound="one 12-step scenario with a logging IBM given by path; one path-vs-name precedence case; two simulations in one process with same-named plug-in files")
 
 
 def mirror_bounded(p):
@@ -513,8 +532,21 @@ def restart_bounded(p):
             f = [f"raised {type(e).__name__}: {e}"]
         if f:
             failures.append(dict(history="no particle variables; particles released at 20 min are recorded once and dead in the last record of the restart file", first=f[0], nfail=len(f)))
+        # continuous release with a later file entry that is NOT on the release-frequency grid (legal: it is never released):
+        # the restarted run must keep the release ticks anchored at the FIRST file time, not at the restart time
+        rows3 = [(iso(0), 4.3, 5.2, 5.0), (iso(0.75), 6.1, 4.4, 30.0)]
+        for b in range(0, 4):
+            try:
+                f, info = restart_compare(d, f"offgrid{b}", b, advection="EF", stop_h=2.0, period=1200, numrec=2, kill=False, continuous=True, rows=rows3)
+            except BaseException as e:  # noqa: BLE001
+                f, info = [f"raised {type(e).__name__}: {e}"], {}
+            if f is None:
+                break
+            cases += 1
+            if f:
+                failures.append(dict(history="continuous release every 30 min, second file entry at 45 min (off the release grid)", restart_after_file=b, first=f[0], nfail=len(f)))
         samples.append(dict(scenario="continuous release every 30 min, IBM ages and kills at 40 min, strong flow leaving the grid, scalar forcing temp", restart="from every completed file"))
-    return dict(cases=cases, failures=failures[:12], samples=samples, bound=f"{len(combos)} scenario variants x every file boundary")
+    return dict(cases=cases, failures=failures[:12], samples=samples, bound=f"{len(combos)} scenario variants x every file boundary; pid-reuse, no-particle-variable and off-grid continuous-release histories")
 
 
 def write_yaml(path, cfg):
@@ -594,6 +626,8 @@ def refusals_bounded(p):
             "forcing starts after the window starts": lambda cfg, sub: ([f.unlink() for f in sub.glob("f_*.nc")], write_forcing(sub, frame_hours=(1, 2, 3, 4), files=[4], sign=0.2)),
             "forcing frames out of order across files": lambda cfg, sub: ([f.unlink() for f in sub.glob("f_*.nc")], write_forcing(sub, frame_hours=(0, 3, 1, 2, 4), files=[2, 3], sign=0.2)),
             "forcing frame duplicated across files": lambda cfg, sub: ([f.unlink() for f in sub.glob("f_*.nc")], write_forcing(sub, frame_hours=(0, 1, 2, 2, 3, 4), files=[3, 3], sign=0.2)),
+            "forcing file out of order behind a file that lies wholly after the window": lambda cfg, sub: ([f.unlink() for f in sub.glob("f_*.nc")], write_forcing(sub, frame_hours=(0, 1, 2, 3, 6, 7, 4, 5), files=[4, 2, 2], sign=0.2)),
+            "forcing frame duplicated in a file wholly after the window": lambda cfg, sub: ([f.unlink() for f in sub.glob("f_*.nc")], write_forcing(sub, frame_hours=(0, 1, 2, 3, 5, 6, 6, 7), files=[4, 2, 2], sign=0.2)),
             "missing start": lambda cfg, sub: cfg["time"].pop("start"),
             "missing stop": lambda cfg, sub: cfg["time"].pop("stop"),
             "missing dt": lambda cfg, sub: cfg["time"].pop("dt"),
